@@ -15,7 +15,7 @@ import (
 func (w *world) refChunks() []string {
 	nfc := 0
 	for _, op := range w.p.Ops {
-		if op == "Fc" {
+		if op == "Fc" || op == "Fm" {
 			nfc++
 		}
 	}
@@ -55,7 +55,7 @@ func (w *world) refChunks() []string {
 				}
 			case op == "F":
 				cut()
-			case op == "Fc":
+			case op == "Fc" || op == "Fm":
 				if mask&(1<<fi) != 0 {
 					cut()
 				}
